@@ -205,6 +205,10 @@ def check_records(r, nthreads, ncalls, counts=None, wide=False):
         for j in range(ncalls):
             path, argv = call_strings(i, j)
             want[(i, j)] = [tr["tid"].get(i, "?").encode(), " ".join(argv).encode(), path.encode()]
+    lone = 99 in tr["tid"]
+    if lone:      # the caller's lone call after every thread has returned
+        path, argv = call_strings(99, 0)
+        want[(99, 0)] = [tr["tid"][99].encode(), " ".join(argv).encode(), path.encode()]
     got = {}
     foreign = []
     for line in r["out"]:
@@ -227,8 +231,12 @@ def check_records(r, nthreads, ncalls, counts=None, wide=False):
         return ("sched:record-foreign-content", "spec_violation",
                 "thread %d call %d was logged %d times and thread %d call %d not at all: a call's record shows another thread's content"
                 % (dup[0][0], dup[0][1], len(got[dup[0]]), missing[0][0] if missing else -1, missing[0][1] if missing else -1))
-    if missing or len(r["out"]) != nthreads * ncalls:
-        return ("sched:record-count", "spec_violation", "%d records for %d calls; no record for %s" % (len(r["out"]), nthreads * ncalls, missing[:4]))
+    if missing or len(r["out"]) != nthreads * ncalls + (1 if lone else 0):
+        return ("sched:record-count", "spec_violation", "%d records for %d calls; no record for %s" % (len(r["out"]), nthreads * ncalls + (1 if lone else 0), missing[:4]))
+    if lone and got[(99, 0)][0][0].isdigit() and got[(99, 0)][0][0] != b"1":
+        return ("quiescence:lone-call-sees-%s" % got[(99, 0)][0][0].decode(), "spec_violation",
+                "all %d threads have returned from their %d calls, yet a later lone call sees %%{snoopy_threads} = %s registered threads instead of 1: the library still holds per-thread state"
+                % (nthreads, ncalls, got[(99, 0)][0][0].decode()))
     if counts is not None:
         for i in range(nthreads):
             seen = [int(got[(i, j)][0][0]) if got[(i, j)][0][0].isdigit() else -1 for j in range(ncalls)]
@@ -249,7 +257,17 @@ def forced_campaign(run, lib, ini, ops, plans, tag, exe=None, env=None, want_tsa
             import shutil
             shutil.rmtree(r["dir"], ignore_errors=True)
         return (k, bad, ts, r["stderr"][-1500:] if (bad or ts) else "")
-    return run_many(job, list(enumerate(plans)), workers=workers)
+    # in chunks: a tree on which the forced schedules stop (every such run waits for its watchdog) is not run through all of them
+    items, out, blocked = list(enumerate(plans)), [], 0
+    step = 96
+    for a in range(0, len(items), step):
+        res = run_many(job, items[a:a + step], workers=workers)
+        out += res
+        blocked += len([1 for (_, bad, _, _) in res if bad and bad[1] in ("timeout", "crash")])
+        if blocked >= 6:
+            run.notes.append("forced schedules (%s): stopped after %d of %d runs, %d of them blocked or crashed" % (tag, len(out), len(items), blocked))
+            break
+    return out
 
 
 def make_plans(run, ops, tier, rng):
@@ -288,15 +306,20 @@ def check(run):
     # ---------------------------------------------------------------- function level: util/list.c vs the heap model
     dl = build_dlist(run)
     dcases = corpus_cases("C09", "dlist\t")
-    res = corr_stream(run, AREA, dl, dcases, stream="dlist-corpus")
+    lsan = {"ASAN_OPTIONS": "detect_leaks=1:exitcode=77:abort_on_error=0:allocator_may_return_null=1", "LSAN_OPTIONS": "exitcode=0:print_suppressions=0"}
+    res = corr_stream(run, AREA, dl, dcases, stream="dlist-corpus", impl_env=lsan)
     if not [1 for (i, c, m, im) in res["mismatch"] if not im.startswith("ok")]:
         # the corpus ran through without a dying worker: the random stream (a worker that dies in every case would cost one alarm per case)
         more = gen_dlist_cases(rng, 400 if quick else 20000)
-        res2 = corr_stream(run, AREA, dl, more, stream="dlist")
+        res2 = corr_stream(run, AREA, dl, more, stream="dlist", impl_env=lsan)
         dcases = dcases + more
         res = {"mismatch": res["mismatch"] + res2["mismatch"]}
     for (i, c, m, im) in res["mismatch"][:1]:
         st = im.split("\t")[0]
+        if st == "ok" and im.endswith("\tLEAK") and im[:-5] == m:
+            run.violation("dlist:leak", "sanitizer", "util/list.c: a node taken off the list is never freed (heap model / C09_DList_refines: remove frees the node; LeakSanitizer after the case)",
+                          {"stream": "dlist", "failing_input": c, "cases": [c], "model_output": m, "impl_output": im})
+            continue
         run.violation("dlist:%s" % st, "sanitizer" if st != "ok" else "spec_violation",
                       "util/list.c leaves the abstract list proved for the heap model: model=%s impl=%s" % (m[:200], im[:200]),
                       {"stream": "dlist", "failing_input": c, "cases": [c], "model_output": m, "impl_output": im})
@@ -319,6 +342,14 @@ def check(run):
                 run.violation(bad[0], bad[1], bad[2], {"failing_input": {"threads": T, "calls": c, "ops": ops, "schedule": ",".join(map(str, s["ids"]))},
                                                        "mode": "force", "threads": T, "calls": c, "ops": ops, "schedule": s["ids"], "kinds": s["kinds"], "counts": {str(a): b for a, b in s["counts"].items()},
                                                        "ini": INI_MAIN.decode(), "stderr": err})
+        # ---------------------------------------------------------------- quiescence under contention (plain build): many threads, two calls each, then a lone call
+        for rep in range(16 if quick else 60):
+            rq = run_mt(run, lib, "stress", 48, 2, "-", INI_MAIN, "quiesce-%d" % rep, timeout=300)
+            badq = ("sched:caller-died:%s" % rq["status"], "crash", "status %s: %s" % (rq["status"], rq["stderr"][-300:])) if rq["status"] != 0 else check_records(rq, 48, 2)
+            if badq:
+                run.violation("stress-" + badq[0] if not badq[0].startswith("quiescence") else badq[0], badq[1], "48 threads x 2 calls, free running: " + badq[2],
+                              {"failing_input": {"mode": "stress", "threads": 48, "calls": 2, "then": "lone call"}, "mode": "stress-plain", "threads": 48, "calls": 2, "ini": INI_MAIN.decode()})
+                break
         # ---------------------------------------------------------------- non-thread-safe build: single-threaded use only
         nts = build_prod(run, ts=False)
         ini_nts = b'[snoopy]\noutput = file:@D@/out.log\nmessage_format = "-|%{tid_kernel}|%{cmdline}|%{filename}"\n'
@@ -450,6 +481,11 @@ def replay(run, path):
         for t in ts:
             print("tsan:", t)
         rc = 1 if (bad or ts) else 0
+    elif mode == "stress-plain":
+        r = run_mt(run, lib, "stress", rep.get("threads", 48), rep.get("calls", 2), "-", ini, "replay", timeout=300)
+        bad = check_records(r, rep.get("threads", 48), rep.get("calls", 2))
+        print("status:", r["status"], "records:", len(r["out"]), "verdict:", bad)
+        rc = 1 if (bad or r["status"] != 0) else 0
     elif mode.startswith("stress"):
         lib, exe = build_tsan(run)
         r = run_mt(run, lib, "stress", rep.get("threads", 8), rep.get("calls", 20), "-", ini, "replay", exe=exe, env={"TSAN_OPTIONS": "exitcode=0 report_signal_unsafe=0"}, timeout=600)
